@@ -66,8 +66,21 @@ func workerCount() int {
 func (e *Engine) verify(t *Target) {
 	e.curT = t
 	e.curFn = t.Short
+	e.opaqueT = map[string]bool{}
+	e.pure = nil // memoised spec results depend on what is opaque
+	if o := argVal(t.D, "opaque"); o != "" {
+		for _, nm := range strings.Split(o, ",") {
+			fn := t.Fn.Pkg.Func(nm)
+			if fn == nil {
+				e.errs = append(e.errs, "opaque spec function not found: "+nm)
+				return
+			}
+			e.opaqueT[fn.String()] = true
+		}
+	}
 	n0 := len(e.obs)
 	p0 := e.paths
+	e.pathBase = e.paths
 	defer func() {
 		if r := recover(); r != nil {
 			if os.Getenv("GOVC_TRACE") != "" {
@@ -168,7 +181,11 @@ func (e *Engine) verify2(t *Target) {
 					pa = append(pa, args[paramIndex(fn, nm)])
 				}
 			}
-			e.oblig(fs, "ensures["+pn+"]", e.evalPure(fs, post, pa, nil).(Term))
+			// a conjunctive postcondition is discharged conjunct by conjunct (small VCs are the stable ones)
+			parts := e.conjuncts(e.evalPure(fs, post, pa, nil).(Term), 64)
+			for _, p := range parts {
+				e.oblig(fs, "ensures["+pn+"]", p)
+			}
 		}
 	}
 }
@@ -351,7 +368,11 @@ func (e *Engine) discharge(tmo int) {
 				o.Result, o.Output = "timeout", "not attempted: the global solving budget of this run was exhausted"
 				return
 			}
-			r := runSolvers(o.Script, tmo, dir, fmt.Sprintf("ob%05d", i))
+			lim := tmo
+			if o.Expect == "sat" && lim > 6 {
+				lim = 6 // a vacuity cover that cannot be decided quickly is noted, not waited for
+			}
+			r := runSolvers(o.Script, lim, dir, fmt.Sprintf("ob%05d", i))
 			o.Result, o.Solver, o.Ms, o.Output = r.first, r.solver, r.ms, r.out
 			if o.Expect == "unsat" && o.Result != "unsat" && o.Result != "sat" && atomic.AddInt32(&retries, 1) <= 8 && time.Now().Before(deadline) {
 				// one retry with a longer limit before an obligation is reported as failed for lack of an answer
@@ -361,4 +382,27 @@ func (e *Engine) discharge(tmo int) {
 		}(i, o)
 	}
 	wg.Wait()
+}
+
+// conjuncts flattens a (possibly named) conjunction into at most max parts.
+func (e *Engine) conjuncts(t Term, max int) []Term {
+	out := []Term{t}
+	for changed := true; changed; {
+		changed = false
+		var next []Term
+		for _, x := range out {
+			y := x
+			if d, ok := e.defOf[y.S]; ok {
+				y = d
+			}
+			if ps, ok := andTable[y.S]; ok && len(out)+len(ps)-1 <= max {
+				next = append(next, ps...)
+				changed = true
+			} else {
+				next = append(next, x)
+			}
+		}
+		out = next
+	}
+	return out
 }
